@@ -4,6 +4,7 @@ use rosu_pp::any::{DifficultyAttributes, PerformanceAttributes};
 
 use crate::maps::{diff_floats, perf_floats};
 
+pub mod c01;
 pub mod c02;
 pub mod c03;
 pub mod c04;
@@ -116,6 +117,7 @@ pub type CaseFn = fn(&mut crate::runner::Ctx, u64);
 
 pub fn lookup(prop: &str) -> Option<CaseFn> {
     Some(match prop {
+        "C01" => c01::case,
         "C02" => c02::case,
         "C03" => c03::case,
         "C04" => c04::case,
